@@ -487,18 +487,3 @@ package tcp
 //@ func (*endpoint).HandleControlPacket props C07
 //@   requires e != nil
 //@   modifies everything()
-
-// ---------------------------------------------------------------------------
-// C15 (parsers recover every option an encoder produced): for every combination of SYN options
-// the stack can send - MSS always, window scale, timestamps, SACK-permitted, in all the layouts
-// makeSynOptions produces - header.ParseSynOptions returns exactly what was encoded. One proof
-// per layout; the parser's loop is unrolled and the unwinding assertion shows 10 iterations
-// suffice.
-//@ func verifSynOptionsRoundTrip props C15 C03
-//@   split layout 0 7
-//@   inline_callee ParseSynOptions EncodeMSSOption EncodeNOP EncodeTSOption EncodeSACKPermittedOption EncodeWSOption AddTCPOptionPadding
-//@   unroll_calls * 10
-//@   requires mss != 0 && 0 <= ws && ws <= header.MaxWndScale
-//@   ensures result.MSS == mss && result.TS == (layout & 1 != 0) && result.SACKPermitted == (layout & 2 != 0)
-//@   ensures result.WS == ite(layout & 4 != 0, ws, -1)
-//@   ensures implies(layout & 1 != 0, result.TSVal == tsVal && implies(isAck, result.TSEcr == tsEcr))
